@@ -9,7 +9,7 @@ RULE = ('n -> standard written-out form from an independent grammar per language
         'sampling above. es-es, fr-fr, pt-br, de-de, it-it, nl-nl: dictionary form, exhaustive 0..2000 (quick 0..300) + round numbers + seeded up to '
         '999 999 (de-de and nl-nl also ordinals); zh-cn, ja-jp: up to 10^12. non-trivial = the model returned an entity; distinct = distinct (culture, model, phrase).')
 EXHAUSTIVE = False
-JOB_TIMEOUT = 2400
+JOB_TIMEOUT = 5400
 CARRIER = {'en-us': 'I have {} apples'}
 
 
